@@ -156,6 +156,7 @@ type StrideInfo struct {
 	Calls      []StrideCallArg
 	AllIntArgs []StrideCallArg // every int argument of every static call (for interprocedural parameter values)
 	CellStores []CellStore
+	All        map[*ssa.Function]*StrideInfo // the other functions analysed together with this one
 }
 
 // CellStore is a store of an int into a captured variable.
@@ -261,7 +262,26 @@ func AnalyzeStrideAll(fns []*ssa.Function) map[*ssa.Function]*StrideInfo {
 			break
 		}
 	}
+	for _, si := range res {
+		si.All = res
+	}
 	return res
+}
+
+// CoordBaseParam reports whether the function indexes a flat array at prm + (an ordinate slot / small constant):
+// prm is the offset of a coordinate handed in by the caller.
+func (si *StrideInfo) CoordBaseParam(prm *ssa.Parameter) bool {
+	for _, s := range si.Sites {
+		if s.What != "index" {
+			continue
+		}
+		if ia, ok := s.Instr.(*ssa.IndexAddr); ok {
+			if l := si.linOf(ia.Index, 0); l.OK && l.Base == ssa.Value(prm) && l.M == 0 {
+				return true
+			}
+		}
+	}
+	return false
 }
 
 // resolveCell maps an address that is a captured int variable (heap Alloc or FreeVar bound to one) to its Alloc.
